@@ -174,49 +174,10 @@ Section Install.
     end.
 End Install.
 
-(* ---- pkg/apk/apk/repo.go: GetPackageWithDependencies, install_if loop ------ *)
-(* deps: names of the resolved dependencies of one world entry, in list order
-   (the keys of the `added` map are always exactly these names).  Since fix
-   c03e0c0 the loop is `for i := 0; i < len(dependencies); i++`: it visits the
-   list by index, the entries it appends included; at dependencies[i] every
-   install_if package listed under that name whose install_if entries are all
-   present and whose own name is not is appended.  (Until the fix it ranged over
-   the map `added` — order and, for chains, membership followed Go's map
-   iteration: finding C01-F1.)  No iteration-order parameter is left.
-   Modelled for unversioned install_if entries (Model/Resolver.v has the rest). *)
-Record iipkg := { ii_name : string; ii_if : list string }.
-Fixpoint ii_lookup (m : list (string * list iipkg)) (k : string) : list iipkg :=
-  match m with
-  | [] => []
-  | (k', v) :: t => if String.eqb k k' then v else ii_lookup t k
-  end.
-(* newPkgResolver: installIfMap[entry] = append(installIfMap[entry], pkg), packages in index order *)
-Fixpoint ii_add (k : string) (p : iipkg) (m : list (string * list iipkg)) : list (string * list iipkg) :=
-  match m with
-  | [] => [(k, [p])]
-  | (k', v) :: t => if String.eqb k k' then (k', v ++ [p]) :: t else (k', v) :: ii_add k p t
-  end.
-Definition ii_build (ps : list iipkg) : list (string * list iipkg) :=
-  fold_left (fun m p => fold_left (fun m e => ii_add e p m) (ii_if p) m) ps [].
-Definition ii_try (deps : list string) (p : iipkg) : list string :=
-  if forallb (fun s => mem s deps) (ii_if p) && negb (mem (ii_name p) deps) then deps ++ [ii_name p] else deps.
-Definition ii_visit (m : list (string * list iipkg)) (deps : list string) (dep : string) : list string :=
-  fold_left ii_try (ii_lookup m dep) deps.
-Fixpoint ii_loop (fuel : nat) (m : list (string * list iipkg)) (i : nat) (deps : list string) : option (list string) :=
-  match nth_error deps i with
-  | None => Some deps
-  | Some d => match fuel with
-              | O => None            (* out of fuel *)
-              | S f => ii_loop f m (S i) (ii_visit m deps d)
-              end
-  end.
-(* every appended name is new and is the name of an install_if package of the
-   map: at most (entries of the map) appends, hence this many visits *)
-Definition ii_names (m : list (string * list iipkg)) : list string :=
-  flat_map (fun kv => List.map ii_name (snd kv)) m.
-(* result: the dependency list (= install order of this world entry's closure) *)
-Definition install_if_pass (m : list (string * list iipkg)) (deps : list string) : option (list string) :=
-  ii_loop (S (List.length deps + List.length (ii_names m))) m 0 deps.
+(* ---- pkg/apk/apk/repo.go: GetPackageWithDependencies, install_if loop ------
+   No second model here any more: the install_if loop is Model/Resolver.v's
+   iif_loop / iif_visit (versioned entries included); C01's statement about it is
+   Proofs/ReproResolve.v, the installif stage compares with Resolver.resolve. *)
 
 (* ---- output tarball: ggcr tarball.MultiWrite + BuildIndex's appended members - *)
 (* for img := range imageToTags (ORDER = Go map iteration): config, then each
